@@ -259,48 +259,8 @@ def own_priority(table, child):
     if dec is not None: return dec
     param = f.params[1] if len(f.params) > 1 else 'node'
     env = {param: child}
-    SAFE = {'isinstance': isinstance, 'repr': repr, 'str': str, 'type': type, 'int': int, 'float': float, 'complex': complex, 'bool': bool, 'len': len, 'abs': abs}
-    class Unknown(Exception): pass
-    def ev(e):
-        if isinstance(e, ast.Constant): return e.value
-        if isinstance(e, ast.Name):
-            if e.id in env: return env[e.id]
-            if e.id in SAFE: return SAFE[e.id]
-            raise Unknown
-        if isinstance(e, ast.Attribute):
-            b = ev(e.value)
-            if isinstance(b, ast.AST) and e.attr in type(b)._fields: return getattr(b, e.attr)
-            raise Unknown
-        if isinstance(e, ast.Tuple): return tuple(ev(x) for x in e.elts)
-        if isinstance(e, ast.BoolOp):
-            r = None
-            for v in e.values:
-                r = ev(v)
-                if isinstance(e.op, ast.And) and not r: return r
-                if isinstance(e.op, ast.Or) and r: return r
-            return r
-        if isinstance(e, ast.UnaryOp) and isinstance(e.op, ast.Not): return not ev(e.operand)
-        if isinstance(e, ast.IfExp): return ev(e.body) if ev(e.test) else ev(e.orelse)
-        if isinstance(e, ast.Compare) and len(e.ops) == 1:
-            l, r = ev(e.left), ev(e.comparators[0]); op = e.ops[0]
-            try:
-                if isinstance(op, ast.Lt): return l < r
-                if isinstance(op, ast.LtE): return l <= r
-                if isinstance(op, ast.Gt): return l > r
-                if isinstance(op, ast.GtE): return l >= r
-                if isinstance(op, ast.Eq): return l == r
-                if isinstance(op, ast.NotEq): return l != r
-                if isinstance(op, ast.Is): return l is r
-                if isinstance(op, ast.IsNot): return l is not r
-                if isinstance(op, ast.In): return l in r
-                if isinstance(op, ast.NotIn): return l not in r
-            except TypeError: raise Unknown
-        if isinstance(e, ast.Call) and not e.keywords:
-            if isinstance(e.func, ast.Name) and e.func.id in SAFE: return SAFE[e.func.id](*[ev(a) for a in e.args])
-            if isinstance(e.func, ast.Attribute) and e.func.attr in ('startswith', 'endswith'):
-                b = ev(e.func.value)
-                if isinstance(b, str): return getattr(b, e.func.attr)(*[ev(a) for a in e.args])
-        raise Unknown
+    from ..q import concrete_eval, Unknown
+    ev = lambda e: concrete_eval(e, env)
     result = [None]
     def interp(stmts):
         for st in stmts:
